@@ -339,8 +339,14 @@ def header(vers="2.0", wrap="NO", null="-999.25", dlm=None, declared=(), extra_w
     return ls
 
 
-def names(d):
-    return ["DEPT"] + ["C%d" % j for j in range(1, d)] if d > 0 else []
+def names(d, numeric=False):
+    """declared curve mnemonics; `numeric`: integer-like mnemonics placed OUT of position ("2" at index 1, ...) so that a
+    lookup confusing a position with a mnemonic shows up as a displaced column"""
+    if d <= 0:
+        return []
+    if numeric:
+        return ["DEPT"] + [str(d - j) for j in range(1, d)]
+    return ["DEPT"] + ["C%d" % j for j in range(1, d)]
 
 
 def lay_row(rng, toks, seps=SEPS, pads=PADS):
@@ -435,3 +441,6 @@ def junk_doc(rng):
 # the input of the fixed finding "sniffer gave up after 21 physical lines" (80546bb): run first by C02 and C07
 SNIFF21_TEXT = ("~V\nVERS. 2.0 :\nWRAP. NO :\n~W\nNULL. -999.25 :\n~C\nA. :\nB. :\n~A\n" + "#c\n" * 21 + "1 2 3\n4 5 6\n")
 SNIFF21_NOCURVES = ("~V\nVERS. 2.0 :\nWRAP. NO :\n~A\n" + "\n" * 21 + "1 2 3\n4 5 6\n")
+
+# the input of the fixed finding "empty inner ~A read the rest of the file as data" (965fe63): context (r = 0) for C02 and C07
+EMPTY_INNER_A = "~V\nVERS. 2.0 : x\nWRAP. NO : y\n~C\nA.M : curve\n~A\n~P\nX. 5 : d\n"
